@@ -163,6 +163,9 @@ impl<'store> ResultItem<'store, TextResource> {
 
     /// Iterator covering a range of text of the resource as a sequence of minimum-length non-overlapping TextSelections, in textual order
     pub fn segmentation_in_range(&self, begin: usize, end: usize) -> SegmentationIter<'store> {
+        //the range is clipped to the text: there is nothing to segment beyond it
+        let end = std::cmp::min(end, self.as_ref().textlen());
+        let begin = std::cmp::min(begin, end);
         SegmentationIter {
             positions: self
                 .as_ref()
